@@ -421,7 +421,7 @@ StepUpdateJob(f) ==
              ELSE WriteJob(nj)
           /\ IF ~ok THEN EndPass(pass, TRUE)
              ELSE IF c1.pc = "end" THEN EndPass(c1, c1.err)
-             ELSE pass' = [c1 EXCEPT !.base = [c1.base EXCEPT !.rv = rvc + 1]] /\ UNCHANGED <<retry, timer>>
+             ELSE pass' = c1 /\ UNCHANGED <<retry, timer>>   \* the status write that follows still carries the cached resourceVersion: it conflicts and the pass is retried
           /\ faults' = IF f = "ok" THEN faults ELSE faults + 1
           /\ taint' = IF taint # "" THEN taint ELSE IF view.stale /\ ok THEN "jobcache-stale" ELSE IF view.skew /\ ok THEN "podcache-behind" ELSE ""
           /\ last' = [a |-> "Step", op |-> "updjob", f |-> f, ok |-> ok, dels |-> {}, fdels |-> {}, view |-> view]
